@@ -52,7 +52,7 @@ TStep ==
        /\ Consume(e)
        /\ ok' = Matches(e)
        /\ qmemo' = IF e.ev = "query" THEN qmemo \cup {<<sk[e.s], e.out>>} ELSE qmemo
-       /\ Matches(e) \/ PrintT(<<"MISMATCH", tid, l, ToJson([ev |-> e.ev, spec |-> [s \in 1..Len(e.post) |->
+       /\ IF Matches(e) THEN TRUE ELSE PrintT(<<"MISMATCH", tid, l, ToJson([ev |-> e.ev, spec |-> [s \in 1..Len(e.post) |->
                LET d == SetToSeq(DOMAIN sk'[s]) IN [i \in 1..Len(d) |-> <<d[i], sk'[s][d[i]]>>]]])>>)
   /\ l' = l + 1 /\ tid' = tid
 TDone == l > Len(Events) /\ UNCHANGED tvars
